@@ -9,7 +9,7 @@
 //  * exact-size heap objects: `c02::heap_obj<T>` places one library object on a malloc chunk of
 //    exactly sizeof(T) bytes (ASan red zones on both sides), default- or value-initialised, after
 //    filling the chunk with a poison byte, so that an indeterminate member shows as a wild value.
-//  * `c02::exact<T>` (= proto::heap_buf<T>): caller ranges without slack or terminator.
+//  * `c02::exact<T>`: caller ranges without slack or terminator (an empty range is a past-the-end pointer).
 //
 // The harness code between `Guard` construction and destruction must be library calls only:
 // everything that builds std::string results or runs the std:: oracle stays outside.
@@ -96,8 +96,36 @@ struct heap_obj {
     auto operator->() -> T* { return p; }
 };
 
+// Exact-size heap copy of a caller range: a malloc chunk of exactly n * sizeof(T) bytes, no terminator, no slack.
+// Same interface as proto::heap_buf.  n == 0 needs care: the sanitizer's malloc(0) hands out ONE accessible byte, so
+// a write of one unit into an empty range would go unseen (measured: to_chars writing '-' into a zero-length buffer).
+// An empty range therefore is the past-the-end pointer of a one-unit chunk: every access lands in the right red zone.
 template <typename T>
-using exact = proto::heap_buf<T>;
+struct exact {
+    T* p = nullptr;
+    std::size_t n = 0;
+    explicit exact(std::vector<long long> const& v) : exact(v.size())
+    {
+        for (std::size_t k = 0; k < n; ++k) p[k] = static_cast<T>(v[k]);
+    }
+    explicit exact(std::size_t count) : n(count)
+    {
+        _base = static_cast<T*>(std::malloc((n == 0 ? 1 : n) * sizeof(T)));
+        p     = n == 0 ? _base + 1 : _base;
+    }
+    exact(exact const&)                    = delete;
+    auto operator=(exact const&) -> exact& = delete;
+    ~exact() { std::free(_base); }
+    std::vector<long long> to_list() const
+    {
+        std::vector<long long> r;
+        for (std::size_t k = 0; k < n; ++k) r.push_back(static_cast<long long>(p[k]));
+        return r;
+    }
+
+private:
+    T* _base = nullptr;
+};
 
 // statistics for the evidence file: appended to $C02_STATS at exit (one line per harness process)
 inline void write_stats()
